@@ -51,7 +51,7 @@ Consume(ev) ==
     [] ev.op = "ret"   -> /\ cur[ev.g].op = "disp" \/ res[ev.g] = ev.res    \* Dispatch's error value is not pinned
                           /\ \E mk \in BOOLEAN : Ret(ev.g, mk)
                           /\ div' = NoDiv
-    [] ev.op = "race"  -> RaceObserved(ev.rd, ev.wr, ev.tbl) /\ div' = NoDiv
+    [] ev.op = "race"  -> RaceObserved(ev.rd, ev.site, ev.wr, ev.tbl) /\ div' = NoDiv
     [] ev.op = "codec" -> CodecLine(ev)
     [] ev.op = "resp"  -> RespLine(ev)
 
